@@ -73,21 +73,20 @@ def autocorr_1d_float(data):
     if nxy == 0:
         return result
 
-    A = nxy * Sxy - Sx_ * Sy_
+    # Missing values are replaced with the mean of the valid values of the
+    # respective vector, i.e. X[X==nodata] = mean(X[X!=nodata]), so they do not
+    # contribute to the (co)variance sums and leave the means unchanged:
+    #   A     = nx * ny * Sum((Xi - mean(X)) * (Yi - mean(Y)))  over valid tuples
+    #   var_X = nx * Sum((Xi - mean(X))**2)                     over valid Xi
+    A = nx * ny * Sxy - ny * Sx * Sy_ - nx * Sy * Sx_ + nxy * Sx * Sy
 
-    # var(X[np.isfinite(X)]) Vairance of X excluding missing values
     var_X = nx * Sxx - Sx * Sx
     var_Y = ny * Syy - Sy * Sy
-
-    # var(X) where missing values were replaced with mean,
-    #   i.e. X[X==nodata] = mean(X[X!=nodata])
-    var_X = var_X * nx / N
-    var_Y = var_Y * ny / N
 
     if var_X < 1e-8 or var_Y < 1e-8:
         return result
 
-    result = A * (var_X**-0.5) * (var_Y**-0.5)
+    result = A * ((nx * var_X) ** -0.5) * ((ny * var_Y) ** -0.5)
     return result
 
 
@@ -155,21 +154,25 @@ def autocorr_1d_int(data, nodata):
     if nxy == 0:
         return result
 
-    A = nxy * float64(Sxy) - float64(Sx_) * float64(Sy_)
+    # Missing values are replaced with the mean of the valid values of the
+    # respective vector, i.e. X[X==nodata] = mean(X[X!=nodata]), so they do not
+    # contribute to the (co)variance sums and leave the means unchanged:
+    #   A     = nx * ny * Sum((Xi - mean(X)) * (Yi - mean(Y)))  over valid tuples
+    #   var_X = nx * Sum((Xi - mean(X))**2)                     over valid Xi
+    A = (
+        float64(nx) * ny * float64(Sxy)
+        - ny * float64(Sx) * float64(Sy_)
+        - nx * float64(Sy) * float64(Sx_)
+        + nxy * float64(Sx) * float64(Sy)
+    )
 
-    # var(X[np.isfinite(X)]) Vairance of X excluding missing values
     var_X = nx * float64(Sxx) - float64(Sx) * float64(Sx)
     var_Y = ny * float64(Syy) - float64(Sy) * float64(Sy)
-
-    # var(X) where missing values were replaced with mean,
-    #   i.e. X[X==nodata] = mean(X[X!=nodata])
-    var_X = var_X * nx / N
-    var_Y = var_Y * ny / N
 
     if var_X < 1e-8 or var_Y < 1e-8:
         return result
 
-    result = A * (var_X**-0.5) * (var_Y**-0.5)
+    result = A * ((nx * var_X) ** -0.5) * ((ny * var_Y) ** -0.5)
     return result
 
 
